@@ -734,6 +734,33 @@ def corpus_history2(r, fails, tags):
     return c
 
 
+def corpus_history3(r, fails, tags):
+    """renamed nested parts given as dressed objects follow their container when it moves"""
+    c = Case(r, fails, tags, force={"k1": "N", "k1b": "N", "k2": "N", "k3": "N",
+                                     "ren": [{}, {"leaf_to_rename": "leaf_renamed"}, {"mid": "middle"}, {}]})
+    steps = [("op_new", dict(ci=0, bi=0, given={})), ("op_new", dict(ci=0, bi=0, given={})),
+             ("op_new", dict(ci=1, bi=0, given={"leaf": "H1", "leaf_to_rename": "H2"})),      # H3
+             ("op_move", dict(target=("H3", 1))),
+             ("op_get", dict(target=("H3", "leaf_to_rename"))),                               # H4
+             ("op_get", dict(target=("H3", "leaf"))),                                         # H5
+             ("op_new", dict(ci=2, bi=1, given={"mid": "H3", "leaf": "H1"})),                 # H6
+             ("op_move", dict(target=("H6", 2))),
+             ("op_get", dict(target=("H6", "mid"))),                                          # H7
+             ("op_get", dict(target=("H7", "leaf_to_rename"))),
+             ("op_copy", dict(target=("H6", 0))),
+             ("op_move", dict(target=("H6", 0)))]
+    for name, kw in steps:
+        before = len(c.ops)
+        c.last_target = None
+        try:
+            getattr(c, name)(**kw)
+        except KeyError:
+            break
+        if len(c.ops) > before and not c.check_mirror(c.ops[-1]):
+            break
+    return c
+
+
 def run_history(r, fails, tags, n_ops):
     c = Case(r, fails, tags)
     c.op_new(0)
@@ -755,7 +782,7 @@ def run_all(tier, seed, extra=None):
     n_hist = {"quick": 40, "thorough": 1200}[tier]
     cases, expects, ctxs = [], [], []
     for hi in range(n_hist):
-        c = corpus_history(r, fails, tags) if hi == 0 else corpus_history2(r, fails, tags) if hi == 1 else run_history(r, fails, tags, r.choice([8, 14, 24]))
+        c = corpus_history(r, fails, tags) if hi == 0 else corpus_history2(r, fails, tags) if hi == 1 else corpus_history3(r, fails, tags) if hi == 2 else run_history(r, fails, tags, r.choice([8, 14, 24]))
         if extra:
             extra(c, r)
         cases.append(c.ops)
